@@ -13,6 +13,7 @@ import (
 	"context"
 	"errors"
 	"fmt"
+	"reflect"
 	"strings"
 	"sync"
 	"time"
@@ -191,6 +192,7 @@ type scenario struct {
 
 // realCOSE signs a COSE envelope; the signing time is shifted by the index so that the bytes are distinct per position.
 func realCOSE(signer *lib.Ent, artifact ocispec.Descriptor, i int) []byte {
+	artifact.Annotations = map[string]string{"build": "42"}
 	return lib.MustCoreSign(lib.SignSpec{Format: lib.MediaCOSE, Payload: lib.Payload(artifact), Signer: signer, SigningTime: time.Now().Add(-time.Duration(i+2) * time.Hour)})
 }
 
@@ -207,6 +209,11 @@ func main() {
 		"the real-verifier sample uses notation-core-go signed envelopes; a signature is 'valid' iff signed by the trusted chain over the resolved artifact",
 	}
 	artifact := lib.Desc(ocispec.MediaTypeImageManifest, []byte("c10 artifact"))
+	// what the repository resolves carries annotations of its own (an OCI layout adds ref.name for a tag); what the
+	// signatures cover carries the signer's user metadata instead: "the resolved artifact descriptor" is the former
+	artifact.Annotations = map[string]string{"org.opencontainers.image.ref.name": "v1", "resolved-by": "repository"}
+	signedView := artifact
+	signedView.Annotations = map[string]string{"build": "42"}
 	other := digest.FromString("other artifact")
 
 	var listings []string
@@ -256,19 +263,27 @@ func main() {
 	nReal := r.N(600, 200000)
 	trusted := lib.SimpleChain("c10-good", 0, "EC-256", 0)
 	untrusted := lib.SimpleChain("c10-bad", 0, "EC-256", 1)
-	goodSig := lib.MustCoreSign(lib.SignSpec{Format: lib.MediaJWS, Payload: lib.Payload(artifact), Signer: trusted})
-	badSig := lib.MustCoreSign(lib.SignSpec{Format: lib.MediaJWS, Payload: lib.Payload(artifact), Signer: untrusted})
+	goodSig := lib.MustCoreSign(lib.SignSpec{Format: lib.MediaJWS, Payload: lib.Payload(signedView), Signer: trusted})
+	badSig := lib.MustCoreSign(lib.SignSpec{Format: lib.MediaJWS, Payload: lib.Payload(signedView), Signer: untrusted})
 	wrongArtifactSig := lib.MustCoreSign(lib.SignSpec{Format: lib.MediaJWS, Payload: lib.Payload(lib.Desc(ocispec.MediaTypeImageManifest, []byte("another"))), Signer: trusted})
 	for k := 0; k < nReal; k++ {
 		ls := listings[rng.Intn(len(listings))]
 		pgs := pagings(len(ls), true)
 		scen = append(scen, scenario{listing: ls, pages: pgs[rng.Intn(len(pgs))], N: rng.Intn(8), ref: []string{"digest", "digest", "digest", "mismatch", "mismatch-sha512"}[rng.Intn(5)] /* the real verifier needs a digest reference for policy selection */, skip: rng.Intn(6) == 0, wrap: rng.Bool(), real: true})
 	}
-	mkReal := func(skip bool) *rver {
+	mkReal := func(skip bool, variant int) *rver {
 		sv := trustpolicy.SignatureVerification{VerificationLevel: "strict"}
 		stores, ids := []string{"ca:x"}, []string{"*"}
 		if skip {
 			sv, stores, ids = trustpolicy.SignatureVerification{VerificationLevel: "skip"}, nil, nil
+			switch variant % 4 { // a skip statement stays a skip statement with a timestamp option or an empty override map
+			case 1:
+				sv.VerifyTimestamp = trustpolicy.OptionAlways
+			case 2:
+				sv.Override = map[trustpolicy.ValidationType]trustpolicy.ValidationAction{}
+			case 3:
+				sv.VerifyTimestamp = trustpolicy.OptionAfterCertExpiry
+			}
 		}
 		v, err := verifier.NewVerifierWithOptions(lib.NewMemTS().Put("ca:x", trusted.Root().Cert), verifier.VerifierOptions{OCITrustPolicy: lib.OCIPolicy(sv, stores, ids), RevocationCodeSigningValidator: lib.OKRev{}, RevocationTimestampingValidator: lib.OKRev{}})
 		if err != nil {
@@ -313,7 +328,7 @@ func main() {
 					}
 				}
 			}
-			rv := mkReal(s.skip)
+			rv := mkReal(s.skip, si)
 			rv.repo = repo
 			v = rv
 		} else {
@@ -381,8 +396,8 @@ func main() {
 					r.Violation(sig("skip-result"), "skip success without a single skip-level outcome", wit)
 				}
 			} else {
-				if desc.Digest != artifact.Digest || desc.Size != artifact.Size || desc.MediaType != artifact.MediaType {
-					r.Violation(sig("returned-descriptor"), fmt.Sprintf("returned descriptor %v is not the resolved artifact", desc), wit)
+				if !reflect.DeepEqual(desc, artifact) {
+					r.Violation(sig("returned-descriptor"), fmt.Sprintf("returned descriptor %+v is not the descriptor the repository resolved (%+v)", desc, artifact), wit)
 				}
 				okOutcome := len(outs) == 1 && outs[0] != nil && outs[0].Error == nil
 				if okOutcome {
